@@ -3,8 +3,7 @@ CONSTANT SDs <- T_SDs
 CONSTANT L0s <- T_L0s
 CONSTANT Positions <- T_Pos
 CONSTANT Ops <- T_Ops
-CONSTANT NowL0 = 2
-CONSTANT NowPos <- T_Now
+CONSTANT Clock <- T_Clock
 CONSTANT DefaultRk = "rk1"
 CONSTANT ReplyKinds <- T_Kinds
 CONSTANT LaterReplies = FALSE
